@@ -7,7 +7,7 @@
         → per trigger: <items> <result code> <state + hook snapshot of every model>
     c19tags <states> <s> <t>  → 0 | 1
 
-  <states> = list of (name, tags, accepted, hook, retries, hasOut)
+  <states> = list of (name, tags list object (0 | ref+1), accepted, hook, retries, hasOut), then the heap of list objects
 -/
 import Handlers.Basic
 import Model.Features
@@ -24,26 +24,34 @@ def c19Mixin : P Mixin := do
     | 0 => .tags | 1 => .error | 2 => .volatile | _ => .retry
 
 structure C19State where
-  name : Nat
-  a : SArgs
+  d : SDef
   out : Bool
 
+/-- (name, tags list object: 0 = keyword absent | ref+1, accepted, hook, retries, hasOut) -/
 def c19State : P C19State := do
   let name ← nat
-  let tags ← nats
+  let r ← nat
   let accepted ← bool
   let hook ← nat
   let retries ← nat
   let out ← bool
-  pure { name, a := { tags, accepted, hook, retries }, out }
+  pure { d := { name, tagsRef := (if r = 0 then none else some (r - 1)), accepted, hook, retries }, out }
 
-def c19Args (ss : List C19State) (s : Nat) : SArgs :=
-  match ss.find? (fun x => x.name = s) with
-  | some x => x.a
-  | none => {}
+/-- <states> <heap: list of the caller's list objects> -/
+structure C19States where
+  ss : List C19State
+  heap : List (List Nat)
 
-def c19Out (ss : List C19State) (s : Nat) : Bool :=
-  match ss.find? (fun x => x.name = s) with
+def c19States : P C19States := do
+  let ss ← list c19State
+  let heap ← list nats
+  pure { ss, heap }
+
+def c19Args (S : C19States) : Nat → SArgs :=
+  builtArgs (S.ss.map (·.d)) (fun r => S.heap.getD r [])
+
+def c19Out (S : C19States) (s : Nat) : Bool :=
+  match S.ss.find? (fun x => x.d.name = s) with
   | some x => x.out
   | none => true
 
@@ -77,7 +85,7 @@ def c19RunGroups (c : FCfg) (nm : Nat) : List (List Op) → FS → List Nat
 def c19OpsCase : P String := do
   let feats ← list c19Mixin
   let nhooks ← nat
-  let ss ← list c19State
+  let ss ← c19States
   let nm ← nat
   let groups ← list (list c19Op)
   let c : FCfg := { feats, args := c19Args ss, hasOut := c19Out ss, nhooks }
@@ -99,7 +107,7 @@ def c19RunFlat (F : Flat) (nm : Nat) : List (Nat × Nat) → MS → List Nat
 def c19FlatCase : P String := do
   let feats ← list c19Mixin
   let nhooks ← nat
-  let ss ← list c19State
+  let ss ← c19States
   let trans ← list c19Trans
   let ignoreInvalid ← bool
   let nm ← nat
@@ -109,7 +117,7 @@ def c19FlatCase : P String := do
   pure (joinNats (c19RunFlat F nm h { fs := FS.init, cur := fun _ => initial }))
 
 def c19TagsCase : P String := do
-  let ss ← list c19State
+  let ss ← c19States
   let s ← nat
   let t ← nat
   let c : FCfg := { feats := [], args := c19Args ss, hasOut := c19Out ss }
